@@ -106,15 +106,17 @@ type sPeer struct {
 }
 
 type sPeerConn struct {
-	id      int
-	c       net.Conn
-	table   map[int]int
-	estab   bool
-	dropped bool // by the peer's own script
-	gone    bool
-	arm     int // drop after this many further UPDATEs (-1 none)
-	armMid  bool
-	nupd    int
+	acceptAt, refAt, failLogAt time.Duration // since schedule start: accepted; peer action that made the attempt fail; failure observed
+	outcome                    int           // 0 unknown, 1 established, 2 failed
+	id                         int
+	c                          net.Conn
+	table                      map[int]int
+	estab                      bool
+	dropped                    bool // by the peer's own script
+	gone                       bool
+	arm                        int // drop after this many further UPDATEs (-1 none)
+	armMid                     bool
+	nupd                       int
 }
 
 func (p *sPeer) log(coq, human string) {
@@ -136,9 +138,6 @@ func (p *sPeer) logT(coq, human string) {
 // first retry of a streak immediately, then 1 s, doubling up to 2 min; a
 // successful connect resets it.  serve() compares the next dial with it.
 func (p *sPeer) attemptFailed() {
-	if p.hadOK && p.streak == 0 {
-		p.failAfterOK++
-	}
 	p.failAt = time.Now()
 	p.failDelay = 0
 	if p.streak > 0 {
@@ -195,16 +194,7 @@ func (p *sPeer) serve() {
 			pc.arm, pc.armMid = sc.dropAfter, sc.dropMid
 		}
 		p.logT(fmt.Sprintf("TAccept %d", pc.id), fmt.Sprintf("accept c%d", pc.id))
-		if !p.failAt.IsZero() && p.closedAt < 0 {
-			el := time.Since(p.failAt)
-			if el+500*time.Millisecond < p.failDelay {
-				p.fail("session-redials-before-backoff", fmt.Sprintf("connection %d dialled %v after a failed attempt, backoff at this point of the streak is %v", pc.id, el, p.failDelay))
-			}
-			if el > p.failDelay+800*time.Millisecond {
-				p.fail("session-redials-later-than-backoff", fmt.Sprintf("connection %d dialled %v after a failed attempt, backoff at this point of the streak is %v (a success resets it)", pc.id, el, p.failDelay))
-			}
-			p.failAt = time.Time{}
-		}
+		pc.acceptAt = time.Since(p.t0)
 		if p.closedAt >= 0 {
 			p.fail("session-dials-after-close", fmt.Sprintf("connection %d accepted after Close() returned", pc.id))
 		}
@@ -264,6 +254,7 @@ func (p *sPeer) handle(pc *sPeerConn, sc sConnScript) {
 		pc.dropped, pc.gone = true, true
 		p.logT(fmt.Sprintf("TDrop %d", pc.id), fmt.Sprintf("c%d: peer drops during handshake", pc.id))
 		p.attemptFailed()
+		pc.outcome, pc.refAt, pc.failLogAt = 2, time.Since(p.t0), time.Since(p.t0)
 		p.mu.Unlock()
 		return
 	}
@@ -281,7 +272,8 @@ func (p *sPeer) handle(pc *sPeerConn, sc sConnScript) {
 		time.Sleep(sc.delayOpen)
 	}
 	p.mu.Lock()
-	late := p.closedAt >= 0 // Close() had already returned when we answer: nothing may come back
+	late := p.closedAt >= 0     // Close() had already returned when we answer: nothing may come back
+	pc.refAt = time.Since(p.t0) // a refusal cannot precede our OPEN
 	p.log(fmt.Sprintf("TOpenSent %d", pc.id), fmt.Sprintf("c%d: peer sends its OPEN (delay %v)", pc.id, sc.delayOpen))
 	p.mu.Unlock()
 	if _, err := c.Write(wSerOpen(o, 0)); err != nil {
@@ -302,8 +294,10 @@ func (p *sPeer) handle(pc *sPeerConn, sc sConnScript) {
 		fmt.Sprintf("c%d: handshake asn=%d as4=%v accepted=%v", pc.id, sc.asn, sc.as4, acc))
 	if acc {
 		p.attemptOK()
+		pc.outcome = 1
 	} else {
 		p.attemptFailed()
+		pc.outcome, pc.failLogAt = 2, time.Since(p.t0)
 	}
 	if acc {
 		pc.estab = true
@@ -611,7 +605,7 @@ func sRunSchedule(t *testing.T, out *vOut, id int, r *rand.Rand, special string)
 		// streak: retried at once), then succeeds
 		hs := p.def
 		hs.dropInHS = true
-		p.scripts = []sConnScript{p.def, hs}
+		p.scripts = []sConnScript{hs, p.def, hs} // fail (retry at once), succeed (resets the backoff), flap, fail (retry at once again), succeed
 	}
 	if capflip {
 		// first connection with the opposite capability of all later ones
@@ -849,6 +843,7 @@ func sRunSchedule(t *testing.T, out *vOut, id int, r *rand.Rand, special string)
 		waitFor(func() bool { return p.cur != nil && p.cur.estab })
 		p.dropIdle()
 		doSet()
+		waitFor(func() bool { return p.nconn >= 4 }) // the failing reconnect and the one after it
 	}
 	if strings.HasPrefix(special, "mass-withdraw") {
 		// one Set announces ~900-1300 host routes, the next one keeps a handful: a single
@@ -987,6 +982,43 @@ func sRunSchedule(t *testing.T, out *vOut, id int, r *rand.Rand, special string)
 		out.Stat("sess:close-races-reconnect", 1)
 	}
 
+	// the connection attempts in order (they are sequential in run()): backoff oracle
+	// and TBackoff summary for the replay
+	backoffSummary := func() { // p.mu held
+		var items []string
+		streak := 0
+		for i, pc := range p.conns {
+			if pc.outcome == 0 {
+				break
+			}
+			ms := func(d time.Duration) int { return int(d / time.Millisecond) }
+			items = append(items, fmt.Sprintf("(%d, %d, %s, %d)", pc.id, ms(pc.acceptAt), cBool(pc.outcome == 1), ms(pc.refAt)))
+			if pc.outcome == 1 {
+				streak = 0
+				continue
+			}
+			d := time.Duration(0)
+			if streak > 7 {
+				d = 2 * time.Minute
+			} else if streak > 0 {
+				d = time.Second << uint(streak-1)
+			}
+			if streak == 0 && i > 0 {
+				p.failAfterOK++ // a failed attempt right after a success
+			}
+			streak++
+			if i+1 < len(p.conns) {
+				nx := p.conns[i+1]
+				if nx.acceptAt+500*time.Millisecond < pc.refAt+d {
+					p.fail("session-redials-before-backoff", fmt.Sprintf("connection %d dialled %v after the peer made attempt %d fail; backoff at this point of the streak is %v", nx.id, nx.acceptAt-pc.refAt, pc.id, d))
+				}
+				if nx.acceptAt > pc.failLogAt+d+800*time.Millisecond {
+					p.fail("session-redials-later-than-backoff", fmt.Sprintf("connection %d dialled %v after attempt %d was seen to fail; backoff at this point of the streak is %v (a success resets it)", nx.id, nx.acceptAt-pc.failLogAt, pc.id, d))
+				}
+			}
+		}
+		p.log("TBackoff "+cList(items), fmt.Sprintf("attempts: %v", items))
+	}
 	final := "stable"
 	if closeIt {
 		p.mu.Lock()
@@ -1022,6 +1054,7 @@ func sRunSchedule(t *testing.T, out *vOut, id int, r *rand.Rand, special string)
 			p.fail("session-connection-open-after-close", fmt.Sprintf("1.5 s after Close() returned the peer still sees connection %d open", open))
 			p.log(fmt.Sprintf("TOpenAfterClose %d", open), fmt.Sprintf("c%d still open", open))
 		}
+		backoffSummary()
 		p.log("TFinalClosed", "end (closed)")
 		p.done = true
 		p.mu.Unlock()
@@ -1069,6 +1102,7 @@ func sRunSchedule(t *testing.T, out *vOut, id int, r *rand.Rand, special string)
 		}
 		p.mu.Lock()
 		pc := p.cur
+		backoffSummary()
 		if final == "stable" {
 			p.log(fmt.Sprintf("TFinal %d %s", pc.id, sTableStr(pc.table)), fmt.Sprintf("end: c%d table %v", pc.id, pc.table))
 			out.Stat("sess:stable", 1)
@@ -1527,10 +1561,24 @@ func sPipeSchedule(out *vOut, id int, r *rand.Rand) {
 	nread := 0
 	// readOne reads and applies one message; false when nothing arrives within d
 	readOne := func(d time.Duration) bool {
+		// the deadline limits only the wait for a message to START; once its first
+		// octets are there the rest is read without a (short) deadline
 		c2.SetReadDeadline(time.Now().Add(d))
-		mb, err := sReadMsg(c2)
-		if err != nil {
+		hdr := make([]byte, 19)
+		if n, err := io.ReadFull(c2, hdr[:1]); n == 0 || err != nil {
 			return false
+		}
+		c2.SetReadDeadline(time.Now().Add(5 * time.Second))
+		if _, err := io.ReadFull(c2, hdr[1:]); err != nil {
+			return false
+		}
+		mb := hdr
+		if l := int(hdr[16])<<8 | int(hdr[17]); l > 19 {
+			body := make([]byte, l-19)
+			if _, err := io.ReadFull(c2, body); err != nil {
+				return false
+			}
+			mb = append(mb, body...)
 		}
 		nread++
 		m, derr := vDecode(mb, fb)
